@@ -215,6 +215,27 @@ def run_history(spec, acc):
                 acc.violation('function-uses-globals-of-defining-run', f'request {k}: got {res!r}, expected {want!r}; base globals rate={base_g.get("rate")!r} counter={base_g.get("counter")!r}; '
                               f'request globals counter={req_g.get("counter")!r}', {'history': 'preloaded-library', 'request': k})
                 return
+        # one options object reused after a run that FAILED inside a data function called with a variables object (runtime error in
+        # the row expression, budget exceeded in a callback): the caller's globals object is still the one in the options, the
+        # variables are gone, and the next run writes its assignments there
+        from bare_script.runtime import BareScriptRuntimeError
+        for failing in ("dd = arrayNew(objectNew('a', 1))\nrr = dataFilter(dd, 'nosuch(a) + vv', objectNew('vv', 7))",
+                        "dd = arrayNew(objectNew('a', 1))\nrr = dataCalculatedField(dd, 'cc', 'nosuch(vv)', objectNew('vv', 7))",
+                        "function spin(x):\n    while true:\n        x = x + 1\n    endwhile\nendfunction\ndd = arrayNew(objectNew('a', 1))\nrr = dataJoin(dd, dd, 'spin(a) + vv', null, false, objectNew('vv', 7))"):
+            g = {'keep': 'mine'}
+            o = {'globals': g, 'maxStatements': 200}
+            try:
+                bare_script.execute_script(bare_script.parse_script(failing), o)
+                acc.note_inconclusive('a run that was expected to fail with a runtime error completed')
+            except BareScriptRuntimeError:
+                pass
+            res = bare_script.execute_script(bare_script.parse_script("after = 5\nreturn arrayNew(vv, keep, after)"), o)
+            acc.case(('options-after-failed-data-call', h, failing[:40]), True)
+            acc.count('options_reuse_after_failure_checks')
+            if o.get('globals') is not g or g.get('after') != 5 or 'vv' in g or res != [None, 'mine', 5]:
+                acc.violation('globals-object-replaced-after-failed-call', f'after a failed {failing.split("= data")[-1][:24]!r} run: options globals is the caller\'s object: {o.get("globals") is g}; '
+                              f'after={g.get("after")!r} vv leaked={"vv" in g} result={res!r}', {'history': 'options-reuse-after-failure', 'script': failing})
+                return
         # expression evaluation without options / globals reads unknown names as null and sees the built-ins only
         for e, want in (({'variable': 'counter'}, None), ({'variable': 'leftover'}, None), ({'function': {'name': 'abs', 'args': [{'number': -2.0}]}}, 2)):
             for opts in (None, {}, {'globals': {}}):
